@@ -264,6 +264,21 @@ fn run_sequence(fills: &[Fill], with_engine: bool, want_obs: bool) -> Result<Out
             }
         }
 
+        // LIFE CYCLE: position state is `Serialize + Deserialize` (persisted engine state, audit snapshots): after some
+        // fills the position manager - and the engine's state of the instrument - are replaced by the copies restored
+        // from their own JSON, which must equal them; the sequence carries on with the copies
+        if f.id % 5 == 3 {
+            out.checks += 1;
+            let mut ok = fixtures::persist_and_restore("position manager", &mut pm).map_err(|why| ("position_state_changed_by_persisting_and_restoring", format!("after fill #{idx} {f:?}: {why}")))?;
+            if let Some(engine) = engine.as_mut() {
+                ok &= fixtures::persist_and_restore("instrument state", engine.state.instruments.instrument_index_mut(&InstrumentIndex(1)))
+                    .map_err(|why| ("position_state_changed_by_persisting_and_restoring", format!("after fill #{idx} {f:?}: engine: {why}")))?;
+            }
+            if ok {
+                out.env.push("lifecycle:position_state_persisted_and_restored".into());
+            }
+        }
+
         // ---- ledger update
         let signed = if f.buy { q } else { -q };
         let notional = p * q;
@@ -606,7 +621,7 @@ fn main() {
     });
     log.flush();
     if args.tier != "miri" {
-        for c in ["open", "increase", "reduce", "close", "flip", "flip->reduce", "reduce->increase", "flip->flip", "zero_fee", "nonzero_fee", "negative_fee_(rebate)", "reduce_leaves_sliver_below_1e-8", "engine_path", "close->open",
+        for c in ["open", "increase", "reduce", "close", "flip", "flip->reduce", "reduce->increase", "flip->flip", "zero_fee", "nonzero_fee", "negative_fee_(rebate)", "reduce_leaves_sliver_below_1e-8", "lifecycle:position_state_persisted_and_restored", "engine_path", "close->open",
             "market:l1_without_levels:with_open_position", "market:liquidation:with_open_position", "market:candle:with_open_position", "market:public_trade:with_open_position",
             "strategy_issues_orders_on_the_tick_of_a_fill", "position_closed_on_a_tick_that_also_generated_orders", "position_closed_on_a_tick_whose_orders_could_not_be_delivered"] {
             report.require(c);
